@@ -429,8 +429,18 @@ def write_synth(repo):
 
 # --------------------------------------------------------------------------- corpus run --
 def start(seed, repo, synth_dir, order, scope):
+    """A fresh process; the processes of one run also differ in what is NOT an input of extraction: hash seed, corpus order,
+    locale / default text encoding, time zone, terminal size, working directory, unrelated environment variables."""
+    env = dict(os.environ, PYTHONHASHSEED=str(seed))
+    cwd = None
+    if order == "rev":
+        env.update(LC_ALL="C", LANG="C", PYTHONUTF8="0", PYTHONCOERCECLOCALE="0", TZ="Pacific/Kiritimati", COLUMNS="43", LINES="11",
+                   PYTHONIOENCODING="ascii:backslashreplace", C06_UNRELATED="1", HOME="/nonexistent-c06-home")
+        cwd = synth_dir if os.path.isdir(synth_dir) else None
+    else:
+        env.update(LC_ALL="C.UTF-8", LANG="C.UTF-8", TZ="UTC")
     return subprocess.Popen([sys.executable, "-c", WORKER, repo, synth_dir, order, scope], stdout=subprocess.PIPE, stderr=subprocess.PIPE, text=True,
-                            env=dict(os.environ, PYTHONHASHSEED=str(seed)))
+                            env=env, cwd=cwd)
 
 
 def collect(p):
@@ -798,6 +808,16 @@ def frame_search(repo, hint):
             "observed": f"before: {f['before']} -- after: {f['after']}"}
 
 
+def recorded_signatures():
+    try:
+        root = os.path.dirname(os.path.dirname(os.path.abspath(__file__)))
+        kf = json.load(open(os.path.join(root, "known_findings.json"))).get("findings", [])
+        return [{"id": f["id"], "detail": list(f["mismatch"]["detail"]), "kind_contains": f["mismatch"]["kind_contains"]}
+                for f in kf if f.get("property") == "C06" and isinstance(f.get("mismatch"), dict)]
+    except (OSError, ValueError, KeyError, TypeError):
+        return []
+
+
 def find(req):
     repo = os.environ.get("VERIF_REPO", "/repo")
     hint = req.get("extra") or {}
@@ -827,8 +847,15 @@ def find(req):
     mm, n = r
     known = {tuple(x) for x in (req.get("known_mismatches") or [])}
     new = [m for m in mm if (m[0], m[2]) not in known and (m[0].split("/")[-1], m[2]) not in known]
+    # mismatches recorded as known findings (known_findings.json, property C06, field "mismatch": where the two runs differ and
+    # what kind of difference it is) are listed separately: they are reported once, under their finding, and never hide new ones
+    recorded = []
+    for sig in recorded_signatures():
+        hit = [m for m in new if m[2] in sig["detail"] and sig["kind_contains"] in m[1]]
+        recorded += [list(m) + [sig["id"]] for m in hit]
+        new = [m for m in new if m not in hit]
     if req.get("list_all"):
-        return {"reproduced": bool(mm), "mismatches": mm, "fixtures": n}
+        return {"reproduced": bool(new), "mismatches": new, "recorded": recorded, "fixtures": n}
     if new:
         return _report(new, n)
     if kind == "frame" and not req.get("list_all"):
